@@ -235,3 +235,73 @@ pub fn parse_record(defs: &str, seed: u64, n: usize, maxlen: usize, out: &str) {
     }
     w.finish();
 }
+
+// ------------------------------------------------------------------ C08: pairs of spellings
+fn spell_line(cmd: &Command, d: &Value, di: usize, a: &Value, b: &Value, amb: bool) -> Value {
+    let (aa, bb) = (argv_with_bin(d, a), argv_with_bin(d, b));
+    let oa = run(cmd, &aa, None);
+    let ob = run(cmd, &bb, None);
+    // the two real ArgMatches compared with clap's own PartialEq
+    let same = {
+        let (c1, c2) = (cmd.clone(), cmd.clone());
+        let (x, y) = (aa.iter().map(|v| os(v)).collect::<Vec<_>>(), bb.iter().map(|v| os(v)).collect::<Vec<_>>());
+        guarded(std::panic::AssertUnwindSafe(move || match (c1.try_get_matches_from(x), c2.try_get_matches_from(y)) {
+            (Ok(m1), Ok(m2)) => m1 == m2,
+            (Err(e1), Err(e2)) => e1.kind() == e2.kind(),
+            _ => false,
+        }))
+        .unwrap_or(false)
+    };
+    json!({"d": di + 1, "a": a, "b": b, "obsA": obs_core(&oa), "obsB": obs_core(&ob), "same": same, "amb": amb})
+}
+
+pub fn spell_replay(defs: &str, input: &str, out: &str, div: &str) {
+    let d = load_defs(defs);
+    let mut rep = Report::new();
+    let mut dw = NdWriter::create(div);
+    for r in read_ndjson(input) {
+        rep.n += 1;
+        let di = r["d"].as_u64().unwrap() as usize - 1;
+        let Ok(cmd) = &d.cmds[di] else { rep.count("gate_rejected", 1); continue };
+        let amb = r["amb"].as_bool().unwrap_or(false);
+        let line = spell_line(cmd, &d.recs[di], di, &r["a"], &r["b"], amb);
+        let a_ok = line["obsA"]["outcome"] == "Ok";
+        let ok = obs_matches(&r["obs"], &line["obsB"]) && (!a_ok || (obs_matches(&r["obs"], &line["obsA"]) && line["same"] == true))
+            && !(amb && line["obsB"]["outcome"] != "Err");
+        if !ok {
+            rep.mismatch(json!({"label": d.recs[di]["label"], "line": line, "want": obs_core(&r["obs"])}));
+            dw.put(&line);
+        } else if r["a"] != r["b"] {
+            rep.sample(json!({"def": d.recs[di]["label"],
+                "a": r["a"].as_array().unwrap().iter().map(|x| String::from_utf8_lossy(&bytes_of(x)).into_owned()).collect::<Vec<_>>(),
+                "b": r["b"].as_array().unwrap().iter().map(|x| String::from_utf8_lossy(&bytes_of(x)).into_owned()).collect::<Vec<_>>()}));
+        }
+    }
+    dw.finish();
+    rep.write(out);
+}
+
+/// random intents: longer element sequences than TLC explores, every element in a random spelling
+pub fn spell_record(defs: &str, seed: u64, n: usize, maxelems: usize, out: &str) {
+    let d = load_defs(defs);
+    let mut rng = StdRng::seed_from_u64(seed);
+    let mut w = NdWriter::create(out);
+    let ok: Vec<usize> = (0..d.recs.len()).filter(|i| d.cmds[*i].is_ok()).collect();
+    for _ in 0..n {
+        let di = ok[rng.gen_range(0..ok.len())];
+        let els = d.recs[di]["elements"].as_array().unwrap();
+        if els.is_empty() { continue; }
+        let k = rng.gen_range(1..=maxelems);
+        let (mut a, mut b, mut amb) = (vec![], vec![], false);
+        for _ in 0..k {
+            let e = &els[rng.gen_range(0..els.len())];
+            let sp = e["sp"].as_array().unwrap();
+            a.extend(sp[0].as_array().unwrap().iter().cloned());
+            b.extend(sp[rng.gen_range(0..sp.len())].as_array().unwrap().iter().cloned());
+            amb = amb || e["amb"] == true;
+            if e["last"] == true { break; }
+        }
+        w.put(&spell_line(d.cmds[di].as_ref().unwrap(), &d.recs[di], di, &Value::Array(a), &Value::Array(b), amb));
+    }
+    w.finish();
+}
